@@ -268,6 +268,8 @@ ATTR_BLOCKS = ["$$\nx\n$$ (lbl)", "$$\nx\n$$", "$$ x $$ (lbl)", "\\begin{equatio
                "```{note}\nx\n```", ":::{tip}\nx\n:::", "<div>html</div>", "***", "term\n: def", ":field: v", "[^f]: note", "(tgt)=", "(lbl)=", "[ref]: http://x", "![img](i.png)", "{{ k }}", "% comment", "+++", "    indented code",
                "```{figure} i.png\ncap\n```", "```{math}\n:label: lbl\nx\n```", "```{code-block} python\n:name: cb\nx\n```", "- [ ] task", "<img src='i.png'>", "<div class='admonition'>x</div>", "```{include} ok.md\n```", "```{eval-rst}\n.. _lbl:\n\ntext\n```",
                "```{list-table}\n* - a\n```", "```{image} i.png\n```", "```{contents}\n```", "```{raw} html\n<b>\n```", "{#inner}\npara"]
+GROWTH_TEMPLATES = [('<img src="a.png" alt="VALUE (2019)">\n', ["html_image"]), ('<img src="a.png" width="VALUEpx;">\n', ["html_image"]), ('<div class="admonition" name="VALUE!">\n<p>x</p>\n</div>\n', ["html_admonition"]),
+                    ('<div class="admonition VALUE?">x</div>\n', ["html_admonition"]), ("```{note}\n:class: VALUE !\n\nx\n```\n", []), ("[t](<VALUE (x>)\n", []), ("{{ VALUE ( }}\n", ["substitution"]), ("![a](i.png){w=VALUE!}\n", ["attrs_inline"])]
 ISOLATION = [
     ["```{note}", "before {mvboom}`x` after", "```"], ["> ```{note}", "> {mvboom}`x`", "> ```"], ["````{tip}", "```{note}", "{mvboom}`x`", "```", "````"], ["```{mvboomdir}", "body", "```"],
     ["````{mvboomafter}", "## heading inside", "", "```{note}", "x", "```", "````"], ["```{include} boominc.md", "```"], ["- item", "", "  ```{note}", "  {mvboom}`x`", "  ```"], [":::{note}", "{mvboom}`x`", ":::"],
@@ -630,6 +632,32 @@ def run_shard(ctx):
         eval_case(ctx, case)
         ctx.case(("sphinx-attrs-before-block", case["text"]), True)
     ctx.subrun("attrs_before_every_block", exhaustive=True, attribute_lines=len(ATTR_LINES), blocks=len(ATTR_BLOCKS))
+    # work that happens inside C code (regular-expression backtracking) makes no Python function entries, so the step budget cannot see it:
+    # attribute values of growing length are timed on SMALL sizes and judged by growth (doubling per character), never by an absolute deadline
+    if ctx.shard < len(GROWTH_TEMPLATES):
+        import time as _time
+
+        tpl, exts_ = GROWTH_TEMPLATES[ctx.shard]
+        times = {}
+        for n_ in (6, 10, 14, 18, 22):
+            text_g = tpl.replace("VALUE", "a" * n_)
+            best = None
+            for _rep in range(2):
+                t0 = _time.perf_counter()
+                try:
+                    drive.parse(text_g, myst_enable_extensions=exts_)
+                except Exception:  # noqa: BLE001
+                    pass
+                dt = _time.perf_counter() - t0
+                best = dt if best is None else min(best, dt)
+            times[n_] = best
+            if best > 5:
+                break
+        ctx.count("growth_series_timed")
+        last = max(times)
+        prev = max(k_ for k_ in times if k_ < last) if len(times) > 1 else None
+        if times[last] > 0.15 and prev is not None and times[last] / max(times[prev], 1e-4) > 5 and times[prev] / max(times[min(times)], 1e-4) > 2:
+            ctx.violation("termination:time-grows-exponentially-with-attribute-length", f"rendering {tpl!r} takes {', '.join(f'{k_}: {v_ * 1000:.0f} ms' for k_, v_ in sorted(times.items()))} for values of that many characters: the time multiplies with every few characters", {"kind": "doc", "sub": "growth", "text": tpl.replace("VALUE", "a" * last), "cfg": {"enable_extensions": exts_}}, {"times": times})
     for k in range(len(ISOLATION)):
         if k % ctx.nshards == ctx.shard % len(ISOLATION) or ctx.nshards <= k:
             case = {"kind": "doc", "sub": "isolation", "shape": k, "text": ""}
